@@ -86,8 +86,8 @@ func (f *ioFam) inner() *factsFam {
 	}
 	g.wrap = func(body []string) string {
 		fields := []string{"f : base.u32", "r : base.u8", "q : base.u32"}
-		m := fn{header: "pub func foo.m!(dst: base.io_writer, src: base.io_reader, x: base.u32[..= 5])",
-			vars: []string{"v : base.u8", "u : base.u32", "n : base.u32"}, body: body}
+		m := fn{header: "pub func foo.m!(dst: base.io_writer, src: base.io_reader, x: base.u32[..= 5], t: slice base.u8)",
+			vars: []string{"v : base.u8", "u : base.u32", "n : base.u32", "rd : base.io_reader", "wr : base.io_writer"}, body: body}
 		return render("foo", fields, m)
 	}
 	g.alpha = []item{
@@ -113,11 +113,20 @@ func (f *ioFam) inner() *factsFam {
 		st(true, "args.src.undo_byte!()"),
 		st(false, "v = args.src.peek_undo_byte()"),
 		op(false, "args.src.can_undo_byte()"),
-		st(false, "io_limit (io: args.src, limit: 1) {", "v = args.src.peek_u8()", "}"),
-		st(false, "io_limit (io: args.src, limit: 1) {", "u = args.src.peek_u16le_as_u32()", "}"),
-		st(false, "io_limit (io: args.src, limit: 1) {", "args.src.skip_u32_fast!(actual: 1, worst_case: 1)", "}"),
-		st(false, "io_limit (io: args.src, limit: 1) {", "if args.src.length() >= 1 {", "args.src.skip_u32_fast!(actual: 1, worst_case: 1)", "}", "}"),
+		st(false, "io_limit (io: args.src, limit: 1 as base.u64) {", "v = args.src.peek_u8()", "}"),
+		st(false, "io_limit (io: args.src, limit: 1 as base.u64) {", "u = args.src.peek_u16le_as_u32()", "}"),
+		st(false, "io_limit (io: args.src, limit: 1 as base.u64) {", "args.src.skip_u32_fast!(actual: 1, worst_case: 1)", "}"),
+		st(false, "io_limit (io: args.src, limit: 1 as base.u64) {", "if args.src.length() >= 1 {", "args.src.skip_u32_fast!(actual: 1, worst_case: 1)", "}", "}"),
 		st(false, "n = args.dst.limited_copy_u32_from_history!(up_to: 2, distance: 1)"),
+		st(false, "io_bind (io: rd, data: args.t, history_position: 0) {", "if rd.length() >= 1 {", "v = rd.peek_u8()", "}", "}"),
+		st(false, "io_bind (io: rd, data: args.t, history_position: 0) {", "v = rd.peek_u8()", "}"),
+		st(false, "io_bind (io: rd, data: args.t[.. 2], history_position: 0) {", "u = rd.peek_u16le_as_u32()", "}"),
+		st(false, "io_bind (io: wr, data: args.t, history_position: 0) {", "if wr.length() >= 1 {", "wr.write_u8_fast!(a: 7)", "}", "}"),
+		st(false, "io_bind (io: wr, data: args.t, history_position: 0) {", "wr.write_u8_fast!(a: 7)", "}"),
+		st(false, "io_bind (io: rd, data: args.t, history_position: 0) {", "args.src.skip_u32_fast!(actual: 1, worst_case: 1)", "}"),
+		st(false, "io_forget_history (io: args.dst) {", "n = args.dst.limited_copy_u32_from_history!(up_to: 2, distance: 1)", "}"),
+		st(false, "io_forget_history (io: args.dst) {", "if args.dst.length() >= 1 {", "args.dst.write_u8_fast!(a: 7)", "}", "}"),
+		st(false, "io_forget_history (io: args.dst) {", "args.dst.write_u8_fast!(a: 7)", "}"),
 		st(false, "n = args.dst.limited_copy_u32_from_reader!(up_to: 2, r: args.src)"),
 	}
 	g.probes = []item{
